@@ -100,9 +100,18 @@ func catalogFamily(a *Args) error {
 	}
 	for _, e := range catAccs {
 		obj, pan := safeMake(e)
-		o := J{"ev": "ctor-acc", "case": 3, "i": 0, "name": e.name, "file": e.file, "panic": pan != "", "services": 0, "addable": false}
+		o := J{"ev": "ctor-acc", "case": 3, "i": 0, "name": e.name, "file": e.file, "panic": pan != "", "services": 0, "addable": false, "inrange": true}
 		if ab := accessoryBase(obj); ab != nil && pan == "" {
 			o["services"] = len(ab.Services)
+			// every value the constructor stored lies within the range the constructor declared
+			for _, sv := range ab.Services {
+				for _, ch := range sv.Characteristics {
+					if !inRange(ch) {
+						o["inrange"] = false
+						o["outofrange"] = fmt.Sprintf("%s: value %v, range [%v, %v]", ch.Type, ch.Value, ch.MinValue, ch.MaxValue)
+					}
+				}
+			}
 			func() {
 				defer func() {
 					if r := recover(); r != nil {
